@@ -11,8 +11,9 @@ Failed(i) ==
                          ELSE IF Gen # <<>> /\ ~TEquals(e.t, Gen[i].t) THEN {"Echo"} ELSE {}
     [] e.ev = "tone"  -> ToneFailed(e, T(e.i))
     [] e.ev = "tpair" -> PairFailed(e, T(e.i), T(e.j))
+    [] e.ev = "tsame" -> IF e.t = T(e.i) THEN {} ELSE {"C20.TypeImmutable"}      \* a type reports the same definition after being operated on
     [] OTHER -> {"UnknownEvent"}
-Init == l = 1 /\ cnt = [k \in {"tdef", "tone", "tpair", "nontrivial"} |-> 0]
+Init == l = 1 /\ cnt = [k \in {"tdef", "tone", "tpair", "tsame", "nontrivial"} |-> 0]
 Next == /\ l <= Len(Trace)
         /\ \A r \in Failed(l) : PrintT(<<"VIOL", l, r>>)
         /\ l' = l + 1
